@@ -51,3 +51,6 @@ Definition vRL (o : outcome (list Z)) : val := vout VL o.
 Definition vLB (p : list Z * bool) : val := vpairLB p.
 Definition vLL (p : list Z * list Z) : val := vpairLL p.
 Definition vcmp (c : comparison) : val := VZ (match c with Lt => -1 | Eq => 0 | Gt => 1 end).
+(* out-of-fuel (never reached: the theorems show the fuel suffices) shows up as a protocol error *)
+Definition vfuel {A} (f : A -> val) (o : option A) : val :=
+  match o with Some a => f a | None => VBad end.
